@@ -46,6 +46,9 @@ func seedFor(seed uint64, name string) [32]byte {
 func InstallDetRand(seed uint64) {
 	detMu.Lock()
 	defer detMu.Unlock()
+	if detOn && detSeed == seed {
+		return // idempotent: the stream is only rewound by ResetDetRand
+	}
 	detSeed = seed
 	detGlobal = mrand.NewChaCha8(seedFor(seed, "global"))
 	if !detOn {
